@@ -120,6 +120,7 @@ class Units:
         self.idx = {}     # collection local -> unit of its index domain
         self.clos = {}    # let-bound closure -> units of its parameters
         self.midx = {}    # keyed collection (bit set, map) local -> unit of the keys used with contains/set/insert/...
+        self.fmt_events = []   # ("lit", line, text) / ("fmt", line, [(local, unit)]) of write!() calls, in visiting order
         self.sized = {}   # fixed-size collection local (vec![x; n], FixedBitSet::with_capacity(n)) -> (unit of n, node)
         self.sized_seen = set()
 
@@ -492,13 +493,78 @@ class Units:
                 if n.get("k") == "match" and n.get("src", "").startswith("ForLoopDesugar"):
                     for a2 in n["arms"]:
                         env2 = dict(env)
+                        pat = None
                         if a2["p"].get("k") == "ts" and a2["p"].get("a"):
-                            self.bind(a2["p"]["a"][0], u, env2)
+                            pat = a2["p"]["a"][0]
                         elif a2["p"].get("k") == "struct" and a2["p"].get("f"):
-                            self.bind(a2["p"]["f"][0][1], u, env2)
+                            pat = a2["p"]["f"][0][1]
+                        uu = u
+                        if uu is None and pat is not None and pat.get("k") == "bind":
+                            # a plain counter (`for v in 0..count`): it is whatever the body uses it as
+                            uu = self.infer_from_uses(pat["n"], a2["b"])
+                        if pat is not None:
+                            self.bind(pat, uu, env2)
                         self.ex(a2["b"], env2)
                     break
         return None
+
+    def record_fmt(self, e, env):
+        """`write!(w, "..{x}..")`: remember string pieces and the units of the interpolated locals (in source order)"""
+        a = e["a"][0]
+        if a.get("k") == "call" and (a["f"].get("n") or "").endswith("from_str") and a.get("a") and a["a"][0].get("k") == "lit":
+            self.fmt_events.append(("lit", e.get("ln"), a["a"][0].get("v")))
+            return
+        if a.get("k") == "block":
+            tmpl = "".join(str(x.get("v") or "") for x in H.walk(a) if x.get("k") == "lit" and x.get("t") in ("str", "bstr"))
+            mk = re.search(r"(\.[a-z]+)", tmpl)
+            if mk:
+                self.fmt_events.append(("lit", e.get("ln"), mk.group(1)))
+            for st in a.get("s", []):
+                if st.get("k") == "slet" and (st.get("e") or {}).get("k") == "tup":
+                    items = []
+                    for x in st["e"]["a"]:
+                        y = x
+                        while isinstance(y, dict) and y.get("k") in ("ref", "use", "cast"):
+                            y = y["e"]
+                        nm = y.get("n") if isinstance(y, dict) and y.get("k") == "path" and y.get("res") == "local" else None
+                        items.append((nm, self.ex(x, env)))
+                    self.fmt_events.append(("fmt", e.get("ln"), items))
+                    return
+
+    def infer_from_uses(self, name, body):
+        """unit of an otherwise unit-less local: the declared unit of the parameters it is passed for (directly or
+        through a cast), if all such uses agree"""
+        found = set()
+        for n in H.walk(body):
+            k = n.get("k")
+            if k not in ("call", "mcall"):
+                continue
+            if any(x.get("k") == "bind" and x.get("n") == name for x in H.walk(n)):
+                continue
+            if k == "mcall" and n.get("name") in KEYED and n.get("a"):
+                # key of a collection whose key unit is already established
+                c = H.root_local(n["r"])
+                ku = self.midx.get(c) or self.idx.get(c)
+                x = n["a"][0]
+                while isinstance(x, dict) and x.get("k") in ("cast", "ref", "use"):
+                    x = x["e"]
+                if isinstance(ku, str) and ku in (V, L) and isinstance(x, dict) and x.get("k") == "path" \
+                        and x.get("res") == "local" and x.get("n") == name:
+                    found.add(ku)
+            sig = self.sig_of(n)
+            if not sig:
+                continue
+            off = 1 if k == "mcall" else 0
+            for i, a in enumerate(n.get("a", [])):
+                x = a
+                while isinstance(x, dict) and x.get("k") in ("cast", "ref", "use"):
+                    x = x["e"]
+                if isinstance(x, dict) and x.get("k") == "path" and x.get("res") == "local" and x.get("n") == name \
+                        and i + off < len(sig["ptys"]):
+                    pu = unit_of_hty(sig["ptys"][i + off])
+                    if isinstance(pu, str) and pu in (V, L):
+                        found.add(pu)
+        return found.pop() if len(found) == 1 else None
 
     def args_vs_sig(self, node, sig, arg_units, offset):
         if not sig:
@@ -544,6 +610,8 @@ class Units:
         return None
 
     def mcall(self, e, env):
+        if e.get("name") == "write_fmt" and e.get("a"):
+            self.record_fmt(e, env)
         ru = self.ex(e["r"], env)
         units = []
         name = e["name"]
